@@ -60,6 +60,17 @@ Theorem handles_equal_iff_same_object : forall n l a b, let s := run n l in
 Proof. exact (seq_handle_eq_iff MT MC). Qed.
 Print Assumptions handles_equal_iff_same_object.
 
+(* the model's unbounded count is what a 64-bit signed counter holds: a count never exceeds
+   1 + (length of the history) + (number of handle slots), so for every history with
+   1 + length + slots < 2^63 it is unchanged by wrapping to 64 bits (facts_match requires the
+   counter's value type to be a 64-bit signed integer: rc_width64).  Histories of 2^63 or more
+   operations are outside what the theorems say about the real counter. *)
+Theorem seq_count_fits_64bit_counter : forall n l o, let s := run n l in
+  0 <= use_count s o <= 1 + Z.of_nat (length l) + Z.of_nat n /\
+  (1 + Z.of_nat (length l) + Z.of_nat n < 2 ^ 63 -> wrap64 (use_count s o) = use_count s o).
+Proof. exact (seq_count_bounded MT MC). Qed.
+Print Assumptions seq_count_fits_64bit_counter.
+
 (* ---- threads: any number of threads n with k handle slots each, a shared read-only array
    built by any sequential history, any schedule at micro-operation granularity ---- *)
 
@@ -119,6 +130,13 @@ Theorem seq_count_is_creator_plus_handles_tbl : forall tbl, contracts_ok tbl = t
   is_alive s o = true -> use_count s o = creator (getobj (s_heap s) o) + nh (s_hs s) o.
 Proof. exact seq_count_eq. Qed.
 Print Assumptions seq_count_is_creator_plus_handles_tbl.
+
+Theorem seq_count_fits_64bit_counter_tbl : forall tbl, contracts_ok tbl = true ->
+  forall n l o, let s := run_t tbl n l in
+  0 <= use_count s o <= 1 + Z.of_nat (length l) + Z.of_nat n /\
+  (1 + Z.of_nat (length l) + Z.of_nat n < 2 ^ 63 -> wrap64 (use_count s o) = use_count s o).
+Proof. exact seq_count_bounded. Qed.
+Print Assumptions seq_count_fits_64bit_counter_tbl.
 
 Theorem seq_no_error_state_tbl : forall tbl, contracts_ok tbl = true ->
   forall n l, err (s_heap (run_t tbl n l)) = false.
@@ -293,3 +311,9 @@ Example mixed_comparison_old_refuted :
   let s := run 5 [Create; Create; RawCtor 0 (Some 0%nat); RawCtor 3 (Some 1%nat)] in
   handle_eq_mixed_old s 0 3 = true /\ handle_ptr s 0 <> handle_ptr s 3 /\ handle_eq s 0 3 = false.
 Proof. vm_compute. repeat split; congruence. Qed.
+
+(* a 32-bit counter would not do: 2^31 explicit references wrap it (the deep-count witness of the harness) *)
+Example ex_narrow_counter_wraps :
+  let wrap32 z := (z + 2 ^ 31) mod 2 ^ 32 - 2 ^ 31 in
+  wrap32 (1 + 2 ^ 31 - 1) = - 2 ^ 31 /\ wrap64 (1 + 2 ^ 31 - 1) = 2 ^ 31 /\ rc_ok (mkRc true true true true true true true false) = false.
+Proof. vm_compute. repeat split; reflexivity. Qed.
